@@ -542,6 +542,11 @@ func ruleNarrowEncoders(p *Program, r *Result, validators map[string]*ssa.Functi
 					if p.Sizes.Sizeof(x.Type()) >= p.Sizes.Sizeof(x.X.Type()) {
 						continue
 					}
+					// one octet of a value all of whose octets are written (byte(v>>24), byte(v>>16), byte(v>>8),
+					// byte(v)): the value is serialised at full width, nothing is cut off
+					if p.Sizes.Sizeof(x.Type()) == 1 && allOctetsTaken(M, x, p.Sizes) {
+						continue
+					}
 					limit := int64(1)<<(uint(p.Sizes.Sizeof(x.Type()))*8) - 1
 					report(in, x.X, limit, fmt.Sprintf("narrowing conversion to %s", typeName(x.Type())))
 				case *ssa.Call:
@@ -560,6 +565,48 @@ func ruleNarrowEncoders(p *Program, r *Result, validators map[string]*ssa.Functi
 	if len(validators) > 1 {
 		r.floor("R-NARROW", 25)
 	}
+}
+
+// octetOf: cv is byte(v >> 8k) (k may be 0); returns v and k.
+func octetOf(cv *ssa.Convert) (ssa.Value, int64, bool) {
+	if bo, ok := cv.X.(*ssa.BinOp); ok && bo.Op == token.SHR {
+		if c, okc := constInt(bo.Y); okc && c%8 == 0 && c >= 0 {
+			return bo.X, c / 8, true
+		}
+		return nil, 0, false
+	}
+	return cv.X, 0, true
+}
+
+// allOctetsTaken: the function converts every octet of cv's source value to a byte (one conversion per shift
+// 0, 8, ... up to the width of the value).
+func allOctetsTaken(fn *ssa.Function, cv *ssa.Convert, sizes types.Sizes) bool {
+	v, _, ok := octetOf(cv)
+	if !ok {
+		return false
+	}
+	w := sizes.Sizeof(v.Type())
+	if w < 2 {
+		return false
+	}
+	seen := map[int64]bool{}
+	for _, b := range fn.Blocks {
+		for _, in := range b.Instrs {
+			c2, ok := in.(*ssa.Convert)
+			if !ok || sizes.Sizeof(c2.Type()) != 1 {
+				continue
+			}
+			if v2, k, ok := octetOf(c2); ok && v2 == v {
+				seen[k] = true
+			}
+		}
+	}
+	for k := int64(0); k < w; k++ {
+		if !seen[k] {
+			return false
+		}
+	}
+	return true
 }
 
 // helperWidth: a module helper func(b []byte, i int) []byte that appends byte(i>>8), byte(i) -> 2.
